@@ -20,7 +20,10 @@
   * `family_equidistributed` the 15 statements E2 in one conjunction;
   * `G_states_u32`, `G_period_u32`, `family_equidistributed_u32`: the same for the derived `next_u32`
                     (upper resp. lower half of `next_u64`) of the nine generators with 64-bit words:
-                    `2^(m+32)` occurrences of every 32-bit value, one less for 0.
+                    `2^(m+32)` occurrences of every 32-bit value, one less for 0;
+  * `Xoroshiro64Star_period_u64`, `Xoroshiro64StarStar_period_u64` (+ `_u64_distinct`, `_u64_ne_zero`):
+                    the derived `next_u64` of the two 64-bit-state generators returns, in `2^64 − 1`
+                    consecutive calls, every non-zero 64-bit value exactly once and 0 never.
 
   The output is computed from the state *before* the step (`next` returns `(scramble s, T s)`),
   for XorShiftRng it is the new word `w` — in both cases a function of the current state, which
@@ -82,6 +85,7 @@ theorem Xoroshiro64Star_every_value (s : S2 32) (hs : s ≠ S2.zero) (y : U32) :
   exists_of_count_pos (by rw [Xoroshiro64Star_period s hs y]; exact count_pos (by decide) y)
 
 example (y : U32) := Xoroshiro64Star_period ⟨1, 0⟩ (by decide) y
+example (y : U32) := Xoroshiro64Star_every_value ⟨1, 0⟩ (by decide) y
 
 /-! ### Xoroshiro64StarStar — output `rotl(s0 * 0x9E3779BB, 5) * 5`: a bijection of `s0` -/
 
@@ -117,6 +121,7 @@ theorem Xoroshiro64StarStar_every_value (s : S2 32) (hs : s ≠ S2.zero) (y : U3
   exists_of_count_pos (by rw [Xoroshiro64StarStar_period s hs y]; exact count_pos (by decide) y)
 
 example (y : U32) := Xoroshiro64StarStar_period ⟨1, 0⟩ (by decide) y
+example (y : U32) := Xoroshiro64StarStar_every_value ⟨1, 0⟩ (by decide) y
 
 /-! ### Xoroshiro128Plus — output `s0 + s1`: for fixed `s1` a bijection of `s0` -/
 
@@ -152,6 +157,7 @@ theorem Xoroshiro128Plus_every_value (s : S2 64) (hs : s ≠ S2.zero) (y : U64) 
   exists_of_count_pos (by rw [Xoroshiro128Plus_period s hs y]; exact count_pos (by decide) y)
 
 example (y : U64) := Xoroshiro128Plus_period ⟨1, 0⟩ (by decide) y
+example (y : U64) := Xoroshiro128Plus_every_value ⟨1, 0⟩ (by decide) y
 
 /-! ### Xoroshiro128PlusPlus — output `rotl(s0 + s1, 17) + s0`: for fixed `s0` a bijection of `s1` -/
 
@@ -187,6 +193,7 @@ theorem Xoroshiro128PlusPlus_every_value (s : S2 64) (hs : s ≠ S2.zero) (y : U
   exists_of_count_pos (by rw [Xoroshiro128PlusPlus_period s hs y]; exact count_pos (by decide) y)
 
 example (y : U64) := Xoroshiro128PlusPlus_period ⟨1, 0⟩ (by decide) y
+example (y : U64) := Xoroshiro128PlusPlus_every_value ⟨1, 0⟩ (by decide) y
 
 /-! ### Xoroshiro128StarStar — output `rotl(s0 * 5, 7) * 9`: a bijection of `s0` -/
 
@@ -222,6 +229,7 @@ theorem Xoroshiro128StarStar_every_value (s : S2 64) (hs : s ≠ S2.zero) (y : U
   exists_of_count_pos (by rw [Xoroshiro128StarStar_period s hs y]; exact count_pos (by decide) y)
 
 example (y : U64) := Xoroshiro128StarStar_period ⟨1, 0⟩ (by decide) y
+example (y : U64) := Xoroshiro128StarStar_every_value ⟨1, 0⟩ (by decide) y
 
 /-! ### Xoshiro128Plus — output `s0 + s3`: for fixed `s0` a bijection of `s3` -/
 
@@ -257,6 +265,7 @@ theorem Xoshiro128Plus_every_value (s : S4 32) (hs : s ≠ S4.zero) (y : U32) :
   exists_of_count_pos (by rw [Xoshiro128Plus_period s hs y]; exact count_pos (by decide) y)
 
 example (y : U32) := Xoshiro128Plus_period ⟨1, 0, 0, 0⟩ (by decide) y
+example (y : U32) := Xoshiro128Plus_every_value ⟨1, 0, 0, 0⟩ (by decide) y
 
 /-! ### Xoshiro128PlusPlus — output `rotl(s0 + s3, 7) + s0`: for fixed `s0` a bijection of `s3` -/
 
@@ -292,6 +301,7 @@ theorem Xoshiro128PlusPlus_every_value (s : S4 32) (hs : s ≠ S4.zero) (y : U32
   exists_of_count_pos (by rw [Xoshiro128PlusPlus_period s hs y]; exact count_pos (by decide) y)
 
 example (y : U32) := Xoshiro128PlusPlus_period ⟨1, 0, 0, 0⟩ (by decide) y
+example (y : U32) := Xoshiro128PlusPlus_every_value ⟨1, 0, 0, 0⟩ (by decide) y
 
 /-! ### Xoshiro128StarStar — output `rotl(s1 * 5, 7) * 9`: a bijection of `s1` -/
 
@@ -327,6 +337,7 @@ theorem Xoshiro128StarStar_every_value (s : S4 32) (hs : s ≠ S4.zero) (y : U32
   exists_of_count_pos (by rw [Xoshiro128StarStar_period s hs y]; exact count_pos (by decide) y)
 
 example (y : U32) := Xoshiro128StarStar_period ⟨1, 0, 0, 0⟩ (by decide) y
+example (y : U32) := Xoshiro128StarStar_every_value ⟨1, 0, 0, 0⟩ (by decide) y
 
 /-! ### Xoshiro256Plus — output `s0 + s3`: for fixed `s0` a bijection of `s3` -/
 
@@ -362,6 +373,7 @@ theorem Xoshiro256Plus_every_value (s : S4 64) (hs : s ≠ S4.zero) (y : U64) :
   exists_of_count_pos (by rw [Xoshiro256Plus_period s hs y]; exact count_pos (by decide) y)
 
 example (y : U64) := Xoshiro256Plus_period ⟨1, 0, 0, 0⟩ (by decide) y
+example (y : U64) := Xoshiro256Plus_every_value ⟨1, 0, 0, 0⟩ (by decide) y
 
 /-! ### Xoshiro256PlusPlus — output `rotl(s0 + s3, 23) + s0`: for fixed `s0` a bijection of `s3` -/
 
@@ -397,6 +409,7 @@ theorem Xoshiro256PlusPlus_every_value (s : S4 64) (hs : s ≠ S4.zero) (y : U64
   exists_of_count_pos (by rw [Xoshiro256PlusPlus_period s hs y]; exact count_pos (by decide) y)
 
 example (y : U64) := Xoshiro256PlusPlus_period ⟨1, 0, 0, 0⟩ (by decide) y
+example (y : U64) := Xoshiro256PlusPlus_every_value ⟨1, 0, 0, 0⟩ (by decide) y
 
 /-! ### Xoshiro256StarStar — output `rotl(s1 * 5, 7) * 9`: a bijection of `s1` -/
 
@@ -432,6 +445,7 @@ theorem Xoshiro256StarStar_every_value (s : S4 64) (hs : s ≠ S4.zero) (y : U64
   exists_of_count_pos (by rw [Xoshiro256StarStar_period s hs y]; exact count_pos (by decide) y)
 
 example (y : U64) := Xoshiro256StarStar_period ⟨1, 0, 0, 0⟩ (by decide) y
+example (y : U64) := Xoshiro256StarStar_every_value ⟨1, 0, 0, 0⟩ (by decide) y
 
 /-! ### Xoshiro512Plus — output `s0 + s2`: for fixed `s2` a bijection of `s0` -/
 
@@ -467,6 +481,7 @@ theorem Xoshiro512Plus_every_value (s : S8) (hs : s ≠ S8.zero) (y : U64) :
   exists_of_count_pos (by rw [Xoshiro512Plus_period s hs y]; exact count_pos (by decide) y)
 
 example (y : U64) := Xoshiro512Plus_period ⟨1, 0, 0, 0, 0, 0, 0, 0⟩ (by decide) y
+example (y : U64) := Xoshiro512Plus_every_value ⟨1, 0, 0, 0, 0, 0, 0, 0⟩ (by decide) y
 
 /-! ### Xoshiro512PlusPlus — output `rotl(s2 + s0, 17) + s2`: for fixed `s2` a bijection of `s0` -/
 
@@ -502,6 +517,7 @@ theorem Xoshiro512PlusPlus_every_value (s : S8) (hs : s ≠ S8.zero) (y : U64) :
   exists_of_count_pos (by rw [Xoshiro512PlusPlus_period s hs y]; exact count_pos (by decide) y)
 
 example (y : U64) := Xoshiro512PlusPlus_period ⟨1, 0, 0, 0, 0, 0, 0, 0⟩ (by decide) y
+example (y : U64) := Xoshiro512PlusPlus_every_value ⟨1, 0, 0, 0, 0, 0, 0, 0⟩ (by decide) y
 
 /-! ### Xoshiro512StarStar — output `rotl(s1 * 5, 7) * 9`: a bijection of `s1` -/
 
@@ -537,6 +553,7 @@ theorem Xoshiro512StarStar_every_value (s : S8) (hs : s ≠ S8.zero) (y : U64) :
   exists_of_count_pos (by rw [Xoshiro512StarStar_period s hs y]; exact count_pos (by decide) y)
 
 example (y : U64) := Xoshiro512StarStar_period ⟨1, 0, 0, 0, 0, 0, 0, 0⟩ (by decide) y
+example (y : U64) := Xoshiro512StarStar_every_value ⟨1, 0, 0, 0, 0, 0, 0, 0⟩ (by decide) y
 
 /-! ### XorShiftRng — output `w ^ (w >> 19) ^ (t ^ (t >> 8))`, `t = x ^ (x << 11)`: for fixed `x` a bijection of `w` -/
 
@@ -572,6 +589,7 @@ theorem XorShiftRng_every_value (s : S4 32) (hs : s ≠ S4.zero) (y : U32) :
   exists_of_count_pos (by rw [XorShiftRng_period s hs y]; exact count_pos (by decide) y)
 
 example (y : U32) := XorShiftRng_period ⟨1, 0, 0, 0⟩ (by decide) y
+example (y : U32) := XorShiftRng_every_value ⟨1, 0, 0, 0⟩ (by decide) y
 
 /-! ## all of them -/
 
@@ -822,6 +840,96 @@ theorem family_equidistributed_u32 :
    Xoshiro512PlusPlus_period_u32,
    Xoshiro512StarStar_period_u32⟩
 
+/-! ## the derived `next_u64` of the two xoroshiro64 generators
+
+  `next_u64` packs two consecutive 32-bit outputs.  The pair (output of `s`, output of `T s`)
+  determines `s` (`pair64_injective`: the scrambler is a bijection of `s0`, and for fixed `s0` the
+  next `s0` is `c ⊕ x ⊕ (x << 9)` with `x = s1 ⊕ s0`, an injective function of `s1`), and the cycle
+  length `2^64 − 1` is odd, so stepping two at a time still visits every non-zero state once
+  (`stride2`). -/
+
+/-- `Xoroshiro64Star::next_u64` (= `next_u64_via_u32`: two `next_u32` calls, `(second << 32) | first`) -/
+theorem Xoroshiro64Star_nextU64_eq (t : S2 32) :
+    Xoroshiro64Star.gen.nextU64 t = (pair64 (fun a => a * 0x9E3779BB#32) t, xoroshiroU32 (xoroshiroU32 t)) := rfl
+
+/-- among the non-zero states, 0 is the `next_u64` output of none and every other 64-bit value of
+    exactly one -/
+theorem Xoroshiro64Star_states_u64 (y : U64) :
+    (Finset.univ.filter (fun t : S2 32 => t ≠ S2.zero ∧ (Xoroshiro64Star.gen.nextU64 t).1 = y)).card
+      = if y = 0 then 0 else 1 :=
+  pair64_states (fun a => a * 0x9E3779BB#32) (fun a b h => by simpa only [mul_mul_inv golden_inv32] using congrArg (· * 0xbe736373#32) h) rfl y
+
+/-- **`Xoroshiro64Star::next_u64` is exactly uniform on the non-zero 64-bit values**: started in any
+    non-zero state, `2^64 − 1` consecutive calls (each advances the state twice; the cycle length
+    is odd) return every non-zero value exactly once and never 0 -/
+theorem Xoroshiro64Star_period_u64 (s : S2 32) (hs : s ≠ S2.zero) (y : U64) :
+    ((Finset.range (2 ^ 64 - 1)).filter
+        (fun k => (Xoroshiro64Star.gen.nextU64 (iter (fun s => (Xoroshiro64Star.gen.nextU64 s).2) k s)).1 = y)).card
+      = if y = 0 then 0 else 1 := by
+  obtain ⟨a, b, c⟩ := stride2 (N := 2 ^ 64 - 1) (z := S2.zero) (s := s) (by decide)
+    C07.xoroshiroU32_bijective.1 (C07.xoroshiroU32_period s hs).1 (C07.xoroshiroU32_period s hs).2
+    (C07.xoroshiroU32_never_zero s hs) (fun t ht => C07.xoroshiroU32_single_cycle s t hs ht)
+  exact (count_period a b c (fun t => (Xoroshiro64Star.gen.nextU64 t).1) y).trans (Xoroshiro64Star_states_u64 y)
+
+/-- … so within one such run no 64-bit value repeats, and 0 does not occur -/
+theorem Xoroshiro64Star_u64_distinct (s : S2 32) (hs : s ≠ S2.zero) (i j : Nat) (hi : i < 2 ^ 64 - 1)
+    (hj : j < 2 ^ 64 - 1) (hij : i ≠ j) :
+    (Xoroshiro64Star.gen.nextU64 (iter (fun s => (Xoroshiro64Star.gen.nextU64 s).2) i s)).1
+      ≠ (Xoroshiro64Star.gen.nextU64 (iter (fun s => (Xoroshiro64Star.gen.nextU64 s).2) j s)).1 :=
+  distinct_of_count_le_one
+    (fun k => (Xoroshiro64Star.gen.nextU64 (iter (fun s => (Xoroshiro64Star.gen.nextU64 s).2) k s)).1)
+    (fun y => by rw [Xoroshiro64Star_period_u64 s hs y]; split <;> omega) hi hj hij
+
+theorem Xoroshiro64Star_u64_ne_zero (s : S2 32) (hs : s ≠ S2.zero) (k : Nat) (hk : k < 2 ^ 64 - 1) :
+    (Xoroshiro64Star.gen.nextU64 (iter (fun s => (Xoroshiro64Star.gen.nextU64 s).2) k s)).1 ≠ 0 :=
+  not_occurs_of_count_zero
+    (fun k => (Xoroshiro64Star.gen.nextU64 (iter (fun s => (Xoroshiro64Star.gen.nextU64 s).2) k s)).1) 0
+    (by rw [Xoroshiro64Star_period_u64 s hs 0]; rfl) hk
+
+example (y : U64) := Xoroshiro64Star_period_u64 ⟨1, 0⟩ (by decide) y
+example : ∃ i j : Nat, i < 2 ^ 64 - 1 ∧ j < 2 ^ 64 - 1 ∧ i ≠ j := ⟨0, 1, by decide, by decide, by decide⟩
+
+/-- `Xoroshiro64StarStar::next_u64` (= `next_u64_via_u32`: two `next_u32` calls, `(second << 32) | first`) -/
+theorem Xoroshiro64StarStar_nextU64_eq (t : S2 32) :
+    Xoroshiro64StarStar.gen.nextU64 t = (pair64 (starstarU32) t, xoroshiroU32 (xoroshiroU32 t)) := rfl
+
+/-- among the non-zero states, 0 is the `next_u64` output of none and every other 64-bit value of
+    exactly one -/
+theorem Xoroshiro64StarStar_states_u64 (y : U64) :
+    (Finset.univ.filter (fun t : S2 32 => t ≠ S2.zero ∧ (Xoroshiro64StarStar.gen.nextU64 t).1 = y)).card
+      = if y = 0 then 0 else 1 :=
+  pair64_states (starstarU32) (fun a b h => by simpa only [unStarstarU32_starstar] using congrArg unStarstarU32 h) rfl y
+
+/-- **`Xoroshiro64StarStar::next_u64` is exactly uniform on the non-zero 64-bit values**: started in any
+    non-zero state, `2^64 − 1` consecutive calls (each advances the state twice; the cycle length
+    is odd) return every non-zero value exactly once and never 0 -/
+theorem Xoroshiro64StarStar_period_u64 (s : S2 32) (hs : s ≠ S2.zero) (y : U64) :
+    ((Finset.range (2 ^ 64 - 1)).filter
+        (fun k => (Xoroshiro64StarStar.gen.nextU64 (iter (fun s => (Xoroshiro64StarStar.gen.nextU64 s).2) k s)).1 = y)).card
+      = if y = 0 then 0 else 1 := by
+  obtain ⟨a, b, c⟩ := stride2 (N := 2 ^ 64 - 1) (z := S2.zero) (s := s) (by decide)
+    C07.xoroshiroU32_bijective.1 (C07.xoroshiroU32_period s hs).1 (C07.xoroshiroU32_period s hs).2
+    (C07.xoroshiroU32_never_zero s hs) (fun t ht => C07.xoroshiroU32_single_cycle s t hs ht)
+  exact (count_period a b c (fun t => (Xoroshiro64StarStar.gen.nextU64 t).1) y).trans (Xoroshiro64StarStar_states_u64 y)
+
+/-- … so within one such run no 64-bit value repeats, and 0 does not occur -/
+theorem Xoroshiro64StarStar_u64_distinct (s : S2 32) (hs : s ≠ S2.zero) (i j : Nat) (hi : i < 2 ^ 64 - 1)
+    (hj : j < 2 ^ 64 - 1) (hij : i ≠ j) :
+    (Xoroshiro64StarStar.gen.nextU64 (iter (fun s => (Xoroshiro64StarStar.gen.nextU64 s).2) i s)).1
+      ≠ (Xoroshiro64StarStar.gen.nextU64 (iter (fun s => (Xoroshiro64StarStar.gen.nextU64 s).2) j s)).1 :=
+  distinct_of_count_le_one
+    (fun k => (Xoroshiro64StarStar.gen.nextU64 (iter (fun s => (Xoroshiro64StarStar.gen.nextU64 s).2) k s)).1)
+    (fun y => by rw [Xoroshiro64StarStar_period_u64 s hs y]; split <;> omega) hi hj hij
+
+theorem Xoroshiro64StarStar_u64_ne_zero (s : S2 32) (hs : s ≠ S2.zero) (k : Nat) (hk : k < 2 ^ 64 - 1) :
+    (Xoroshiro64StarStar.gen.nextU64 (iter (fun s => (Xoroshiro64StarStar.gen.nextU64 s).2) k s)).1 ≠ 0 :=
+  not_occurs_of_count_zero
+    (fun k => (Xoroshiro64StarStar.gen.nextU64 (iter (fun s => (Xoroshiro64StarStar.gen.nextU64 s).2) k s)).1) 0
+    (by rw [Xoroshiro64StarStar_period_u64 s hs 0]; rfl) hk
+
+example (y : U64) := Xoroshiro64StarStar_period_u64 ⟨1, 0⟩ (by decide) y
+example : ∃ i j : Nat, i < 2 ^ 64 - 1 ∧ j < 2 ^ 64 - 1 ∧ i ≠ j := ⟨0, 1, by decide, by decide, by decide⟩
+
 /-- the two frequencies add up to the period: `(2^w − 1) · 2^m + (2^m − 1) = 2^(w+m) − 1` -/
 theorem frequencies_sum (w m : Nat) : (2 ^ w - 1) * 2 ^ m + (2 ^ m - 1) = 2 ^ (w + m) - 1 := by
   have h1 : 0 < 2 ^ w := Nat.two_pow_pos w
@@ -912,3 +1020,13 @@ end Rngs.Extra.Equidistribution
 #print axioms Rngs.Extra.Equidistribution.Xoshiro512StarStar_states_u32
 #print axioms Rngs.Extra.Equidistribution.Xoshiro512StarStar_period_u32
 #print axioms Rngs.Extra.Equidistribution.family_equidistributed_u32
+#print axioms Rngs.Extra.Equidistribution.Xoroshiro64Star_nextU64_eq
+#print axioms Rngs.Extra.Equidistribution.Xoroshiro64Star_states_u64
+#print axioms Rngs.Extra.Equidistribution.Xoroshiro64Star_period_u64
+#print axioms Rngs.Extra.Equidistribution.Xoroshiro64Star_u64_distinct
+#print axioms Rngs.Extra.Equidistribution.Xoroshiro64Star_u64_ne_zero
+#print axioms Rngs.Extra.Equidistribution.Xoroshiro64StarStar_nextU64_eq
+#print axioms Rngs.Extra.Equidistribution.Xoroshiro64StarStar_states_u64
+#print axioms Rngs.Extra.Equidistribution.Xoroshiro64StarStar_period_u64
+#print axioms Rngs.Extra.Equidistribution.Xoroshiro64StarStar_u64_distinct
+#print axioms Rngs.Extra.Equidistribution.Xoroshiro64StarStar_u64_ne_zero
